@@ -93,11 +93,11 @@ pub fn suite(name: &str, thorough: bool) -> Suite {
             s.terms = vec![Term::Drop, Term::Seq(ALL)];
         }
         "C06" => {
-            s.alphabet = alphabet(&["S", "N", "I", "C2:a", "C3:1", "BN2", "BXa", "BX1", "BD", "HC2", "HN1", "HD", "EF2", "H", "CMx:a", "CHp1:1"]);
+            s.alphabet = alphabet(&["S", "N", "I", "C2:a", "C3:1", "BN2", "BXa", "BX1", "BD", "HC2", "HN1", "HD", "EF2", "H", "CMx:a", "CHp1:1", "FS2:1", "FS1:2"]);
         }
         "C08" | "C15" if false => {}
         "C08" => {
-            s.alphabet = alphabet(&["N", "I", "C2:a", "C3:1", "C1:0", "HC2", "HN1", "HD", "BN2", "BXa", "BX1", "BD", "S", "EF2", "V", "CMx:1", "CV3:1", "CV2:9", "CV3:22", "BV1", "BV9", "BV21"]);
+            s.alphabet = alphabet(&["N", "I", "C2:a", "C3:1", "C1:0", "HC2", "HN1", "HD", "BN2", "BXa", "BX1", "BD", "S", "EF2", "V", "CMx:1", "CV3:1", "CV2:9", "CV3:22", "BV1", "BV9", "BV21", "FS2:1"]);
             s.depth = if thorough { 5 } else { 4 };
             s.kinds = kinds_where(|k| k.consuming).into_iter().filter(|k| !matches!(k, KindId::OVecBox | KindId::OArrayBox | KindId::IterBox | KindId::OVec24 | KindId::OArray24 | KindId::Iter24)).collect();
             s.kinds.extend([KindId::OVecZst, KindId::OArrayZst]);
@@ -119,14 +119,14 @@ pub fn suite(name: &str, thorough: bool) -> Suite {
             s.terms = vec![Term::Drop];
         }
         "C12" => {
-            s.alphabet = alphabet(&["FE1", "FE2", "FE3", "EF1", "EF2", "EF3", "FO1", "FO2", "FO3", "N", "C2:1", "BN2", "BX1", "S", "FEMx", "EFHp1", "FOMx"]);
+            s.alphabet = alphabet(&["FE1", "FE2", "FE3", "EF1", "EF2", "EF3", "FO1", "FO2", "FO3", "N", "C2:1", "BN2", "BX1", "S", "FEMx", "EFHp1", "FOMx", "FS1:1", "FS2:1", "FS3:2"]);
             s.terms = vec![Term::Drop, Term::Seq(ALL)];
             s.depth = if thorough { 5 } else { 4 };
         }
         "C13" => {
             s.kinds = kinds_where(|k| k.adaptor);
             s.pair = true;
-            s.alphabet = alphabet(&["N", "I", "C2:a", "C3:1", "C1:0", "HC2", "HN1", "HD", "BN2", "BXa", "BX1", "BD", "S", "EF2", "V", "L", "H", "FO2", "C0:a", "CMx:1"]);
+            s.alphabet = alphabet(&["N", "I", "C2:a", "C3:1", "C1:0", "HC2", "HN1", "HD", "BN2", "BXa", "BX1", "BD", "S", "EF2", "V", "L", "H", "FO2", "C0:a", "CMx:1", "FS2:1", "FS3:2"]);
             s.depth = if thorough { 5 } else { 4 };
         }
         "C16" => {
